@@ -1,5 +1,5 @@
 (** Proofs about [World::clone_from] under a panic (C17, C13; finding F11). *)
-From Brood Require Import Base CloneFromW.
+From Brood Require Import Base BaseFacts CloneFromW.
 
 Lemma nth_error_nil A i : nth_error (@nil A) i = None.
 Proof. destruct i; reflexivity. Qed.
@@ -82,3 +82,116 @@ Lemma remove_released_last_dangles :
   let w := pw_remove_gen false w_dst 0 0 0 true in
   nth_error (pw_slots w) 0 = Some (Some (0, 0)) /\ row_of w 0 0 = Some 2 /\ winv_b w = false.
 Proof. vm_compute. auto. Qed.
+
+(** * [Entry::remove]: with the drop last the state after a panicking Drop is the state after a completed move *)
+Lemma entry_remove_fact : fact_entry_remove_drops_last = true.
+Proof. reflexivity. Qed.
+
+Theorem entry_remove_state_independent_of_panic w i a r b panics :
+  pw_entry_remove w i a r b panics = pw_entry_remove w i a r b false.
+Proof. unfold pw_entry_remove. rewrite entry_remove_fact. reflexivity. Qed.
+
+Example entry_remove_moves : winv_b (pw_entry_remove_gen true w_dst 0 0 0 1 true) = true /\
+  pw_entry_remove_gen true w_dst 0 0 0 1 true = mkPW [[2; 1]; [3; 0]] [Some (1, 1); Some (0, 1); Some (0, 0); Some (1, 0)].
+Proof. vm_compute. auto. Qed.
+
+(** dropped before the location update (a change seeded in round 4): identifier 0 still points at row 0 of its
+    old archetype, which now holds identifier 2; its own row is reachable through no identifier *)
+Lemma entry_remove_dropped_early_dangles :
+  let w := pw_entry_remove_gen false w_dst 0 0 0 1 true in
+  nth_error (pw_slots w) 0 = Some (Some (0, 0)) /\ row_of w 0 0 = Some 2 /\ row_of w 1 1 = Some 0 /\ winv_b w = false.
+Proof. vm_compute. auto. Qed.
+
+(** * The removal itself keeps the index consistent — for every consistent world, so together with
+      [remove_state_independent_of_panic]: whatever Drop panics during [World::remove], the world the caller
+      gets back satisfies [WInv] *)
+Lemma row_of_upd_arch archs slots a rows' a' r' :
+  row_of (mkPW (upd a (fun _ => rows') archs) slots) a' r' =
+  if Nat.eqb a' a then match nth_error archs a with Some _ => nth_error rows' r' | None => None end
+  else row_of (mkPW archs slots) a' r'.
+Proof.
+  unfold row_of. cbn [pw_archs]. rewrite nth_error_upd.
+  destruct (Nat.eqb_spec a' a) as [->|Hne]; [|reflexivity].
+  destruct (nth_error archs a); reflexivity.
+Qed.
+
+Theorem remove_keeps_WInv w i a r : WInv w -> nth_error (pw_slots w) i = Some (Some (a, r)) ->
+  WInv (pw_remove_rows (pw_free w i) a r).
+Proof.
+  intros [H1 H2] Hi. destruct w as [archs slots]. cbn [pw_slots pw_archs] in *.
+  pose proof (H1 i a r Hi) as Hrow. unfold row_of in Hrow. cbn [pw_archs] in Hrow.
+  destruct (nth_error archs a) as [rows|] eqn:Ea; [|discriminate].
+  assert (Hr : r < length rows) by (apply nth_error_Some; congruence).
+  set (n := length rows - 1).
+  destruct (nth_error rows n) as [z|] eqn:Ez; [|apply nth_error_None in Ez; unfold n in Ez; lia].
+  (* uniqueness inside the archetype, from the slot table being a function *)
+  assert (Uq : forall x y j, nth_error rows x = Some j -> nth_error rows y = Some j -> x = y).
+  { intros x y j Hx Hy.
+    assert (A1 : nth_error slots j = Some (Some (a, x))) by (apply H2; unfold row_of; cbn [pw_archs]; rewrite Ea; exact Hx).
+    assert (A2 : nth_error slots j = Some (Some (a, y))) by (apply H2; unfold row_of; cbn [pw_archs]; rewrite Ea; exact Hy).
+    congruence. }
+  assert (Hz : nth_error slots z = Some (Some (a, n))) by (apply H2; unfold row_of; cbn [pw_archs]; rewrite Ea; exact Ez).
+  unfold pw_remove_rows, pw_free. cbn [pw_archs pw_slots]. rewrite Ea. fold n. rewrite Ez.
+  assert (SR : forall r', nth_error (swap_remove r rows) r' =
+               if Nat.ltb r' n then (if Nat.eqb r' r then Some z else nth_error rows r') else None).
+  { intros r'. rewrite (@nth_error_swap_remove _ r r' rows Hr). fold n. rewrite Ez. reflexivity. }
+  destruct (Nat.ltb_spec r n) as [Hlt|Hge].
+  - (* a row is moved into the hole: z <> i *)
+    assert (Hzi : z <> i) by (intros ->; assert (n = r) by (eapply Uq; eauto); lia).
+    split.
+    + intros j a' r' Hj. cbn [pw_slots] in Hj. rewrite row_of_upd_arch, Ea.
+      rewrite nth_error_upd in Hj. destruct (Nat.eqb_spec j z) as [->|Hjz].
+      * rewrite nth_error_upd_other in Hj by exact Hzi. rewrite Hz in Hj. cbn in Hj. inversion Hj; subst a' r'.
+        rewrite Nat.eqb_refl, SR. destruct (Nat.ltb_spec r n); [|lia]. rewrite Nat.eqb_refl. reflexivity.
+      * rewrite nth_error_upd in Hj. destruct (Nat.eqb_spec j i) as [->|Hji].
+        -- rewrite Hi in Hj. cbn in Hj. discriminate.
+        -- pose proof (H1 j a' r' Hj) as Hw. destruct (Nat.eqb_spec a' a) as [->|Hne]; [|exact Hw].
+           unfold row_of in Hw. cbn [pw_archs] in Hw. rewrite Ea in Hw. rewrite SR.
+           assert (r' <> r) by (intros ->; congruence).
+           assert (r' <> n) by (intros ->; congruence).
+           assert (r' < length rows) by (apply nth_error_Some; congruence).
+           destruct (Nat.ltb_spec r' n); [|unfold n in *; lia].
+           destruct (Nat.eqb_spec r' r); [contradiction|exact Hw].
+    + intros a' r' j Hj. cbn [pw_slots]. rewrite row_of_upd_arch, Ea in Hj.
+      destruct (Nat.eqb_spec a' a) as [->|Hne].
+      * rewrite SR in Hj. destruct (Nat.ltb_spec r' n) as [Hr'|]; [|discriminate].
+        destruct (Nat.eqb_spec r' r) as [->|Hrr].
+        -- inversion Hj; subst j. rewrite nth_error_upd_same, nth_error_upd_other by exact Hzi. rewrite Hz. reflexivity.
+        -- assert (j <> i) by (intros ->; apply Hrr; eapply Uq; eauto).
+           assert (j <> z) by (intros ->; assert (r' = n) by (eapply Uq; eauto); lia).
+           rewrite !nth_error_upd_other by assumption.
+           apply H2. unfold row_of. cbn [pw_archs]. rewrite Ea. exact Hj.
+      * pose proof (H2 a' r' j Hj) as Hs.
+        assert (j <> i) by (intros ->; rewrite Hi in Hs; inversion Hs; congruence).
+        assert (j <> z) by (intros ->; rewrite Hz in Hs; inversion Hs; congruence).
+        rewrite !nth_error_upd_other by assumption. exact Hs.
+  - (* the last row is removed: z = i *)
+    assert (Hrn : r = n) by (unfold n in *; lia). subst r.
+    assert (Hzi : z = i) by congruence. subst z.
+    split.
+    + intros j a' r' Hj. cbn [pw_slots] in Hj. rewrite row_of_upd_arch, Ea.
+      rewrite nth_error_upd in Hj. destruct (Nat.eqb_spec j i) as [->|Hji].
+      * rewrite Hi in Hj. cbn in Hj. discriminate.
+      * pose proof (H1 j a' r' Hj) as Hw. destruct (Nat.eqb_spec a' a) as [->|Hne]; [|exact Hw].
+        unfold row_of in Hw. cbn [pw_archs] in Hw. rewrite Ea in Hw. rewrite SR.
+        assert (r' <> n) by (intros ->; congruence).
+        assert (r' < length rows) by (apply nth_error_Some; congruence).
+        destruct (Nat.ltb_spec r' n); [|unfold n in *; lia].
+        destruct (Nat.eqb_spec r' n); [contradiction|exact Hw].
+    + intros a' r' j Hj. cbn [pw_slots]. rewrite row_of_upd_arch, Ea in Hj.
+      destruct (Nat.eqb_spec a' a) as [->|Hne].
+      * rewrite SR in Hj. destruct (Nat.ltb_spec r' n) as [Hr'|]; [|discriminate].
+        destruct (Nat.eqb_spec r' n) as [->|Hrr]; [lia|].
+        assert (j <> i) by (intros ->; apply Hrr; eapply Uq; eauto).
+        rewrite nth_error_upd_other by assumption.
+        apply H2. unfold row_of. cbn [pw_archs]. rewrite Ea. exact Hj.
+      * pose proof (H2 a' r' j Hj) as Hs.
+        assert (j <> i) by (intros ->; rewrite Hi in Hs; inversion Hs; congruence).
+        rewrite nth_error_upd_other by assumption. exact Hs.
+Qed.
+
+Theorem remove_under_panic_keeps_WInv w i a r panics : WInv w -> nth_error (pw_slots w) i = Some (Some (a, r)) ->
+  WInv (pw_remove w i a r panics).
+Proof.
+  intros HW Hi. unfold pw_remove, pw_remove_gen. rewrite remove_fact. exact (remove_keeps_WInv w i a r HW Hi).
+Qed.
